@@ -54,7 +54,8 @@ def run_solver(cfg, answers=None):
                   n_damp=cfg['n_damp'], tf=cfg['tf'], dt=cfg['dt'],
                   adaptive_timestep=cfg['adaptive'], cfl=0.3,
                   output_at_times=list(cfg['out']), pfreq=cfg['pfreq'])
-    s.max_steps = cfg['max_steps']
+    if cfg['max_steps'] != INF_STEPS:
+        s.set_max_steps(cfg['max_steps'])
     s.particles = []
     s.pre_step_callbacks.append(lambda sol: rec.append(('pre', sol.t)))
     s.post_step_callbacks.append(lambda sol: rec.append(('post', sol.t)))
@@ -94,6 +95,9 @@ def judge(cfg, rec, s, err):
     stopped_by_max = cfg['max_steps'] != INF_STEPS and n >= cfg['max_steps']
     t_end = s.t
     tol = 1e-12 * max(1.0, tf)
+    if n > cfg['max_steps']:
+        out.append(('max-steps-exceeded', '%d steps taken with max_steps=%d'
+                    % (n, cfg['max_steps'])))
     # (a) end time
     if not stopped_by_max:
         if abs(t_end - tf) > 8 * np.finfo(float).eps * tf * max(1, n):
@@ -243,7 +247,7 @@ def fixed_configs(thorough, seed):
             for sub in out_subsets(dt, tf, maxk):
                 for pf in PFREQ:
                     for nd in NDAMP:
-                        for ms in (INF_STEPS, 2):
+                        for ms in (INF_STEPS, 0, 1, 2):
                             yield dict(dt=dt, tf=tf, pfreq=pf, out=sub,
                                        n_damp=nd, max_steps=ms,
                                        adaptive=False)
@@ -262,6 +266,10 @@ def adaptive_base_configs(thorough):
                         yield dict(dt=dt, tf=tf, pfreq=pf, out=sub,
                                    n_damp=nd, max_steps=INF_STEPS,
                                    adaptive=True)
+                if thorough or sub == ():
+                    for ms in (0, 1, 3):
+                        yield dict(dt=dt, tf=tf, pfreq=2, out=sub, n_damp=1,
+                                   max_steps=ms, adaptive=True)
 
 
 def _fixed_job(cfgs):
